@@ -35,6 +35,21 @@ def import_repo():
     assert os.path.realpath(pymemcache.__file__).startswith(os.path.realpath(REPO)), pymemcache.__file__
 
 
+def jsonable(x, depth=0):
+    """what goes into replay / evidence files must be JSON whatever a harness put into a case description (bytes keys, sets, objects)"""
+    if depth > 12:
+        return repr(x)[:80]
+    if isinstance(x, dict):
+        return {(k if isinstance(k, str) else k.hex() if isinstance(k, (bytes, bytearray)) else repr(k)): jsonable(v, depth + 1) for k, v in x.items()}
+    if isinstance(x, (list, tuple, set, frozenset)):
+        return [jsonable(v, depth + 1) for v in (sorted(x, key=repr) if isinstance(x, (set, frozenset)) else x)]
+    if isinstance(x, (bytes, bytearray)):
+        return "hex:" + bytes(x).hex()
+    if x is None or isinstance(x, (bool, int, float, str)):
+        return x
+    return repr(x)[:200]
+
+
 class FakeClock:
     """what the harnesses put in place of the `time` module of pymemcache.client.hash / pymemcache.pool: every clock reading comes from one
     virtual clock `now()`.  `time()` is that clock; `monotonic()` / `perf_counter()` run at the same rate from a different origin, 2**40 s
@@ -275,7 +290,7 @@ class Ctx:
         if nontrivial:
             self.nontrivial.add(hashlib.blake2b(repr(canon).encode(), digest_size=8).digest())
         if sample is not None and len(self.samples) < 6:
-            self.samples.append(sample)
+            self.samples.append(jsonable(sample))
 
     def violation(self, what, case, tags=()):
         """a violation of the property itself on the real code.  `tags` are matched against known findings."""
@@ -283,11 +298,11 @@ class Ctx:
         if f is not None:
             k = f["id"]
             if k not in self.known_hits:
-                self.known_hits[k] = {"finding": f, "n": 0, "example": case}
+                self.known_hits[k] = {"finding": f, "n": 0, "example": jsonable(case)}
             self.known_hits[k]["n"] += 1
             return False
         if len(self.violations) < 50:
-            self.violations.append({"what": what, "case": case, "tags": list(tags)})
+            self.violations.append({"what": what, "case": jsonable(case), "tags": list(tags)})
         return True
 
     def disagreement(self, what, case, theorem=None, tags=()):
@@ -295,7 +310,7 @@ class Ctx:
         if match_finding(self.findings, tags) is not None:
             return
         if len(self.disagreements) < 50:
-            self.disagreements.append({"what": what, "case": case, "theorem": theorem})
+            self.disagreements.append({"what": what, "case": jsonable(case), "theorem": theorem})
 
     # -------------------------------------------------------------------------------------------
     def prepare_lean(self):
